@@ -202,15 +202,29 @@ def _aggregates(ctx):
         isinstance(s, ast.AugAssign) and isinstance(s.op, ast.Sub)
         for s in _stores_attr(f, 'self.free_capacity'))],
         'Server routine lowering free_capacity')
-    rem = K.one([f for f in server.live_methods() if any(
-        isinstance(s, ast.AugAssign) and isinstance(s.op, ast.Add)
-        for s in _stores_attr(f, 'self.free_capacity'))],
-        'Server routine raising free_capacity')
+    # the routine that gives capacity back: the other one that stores
+    # free_capacity outside the constructor (found by role, so that a store
+    # written differently is judged, not lost)
+    rem = K.one([f for f in server.live_methods()
+                 if f is not put and f.name != '__init__' and
+                 _stores_attr(f, 'self.free_capacity')],
+                'Server routine raising free_capacity')
+    raising = [s for s in _stores_attr(rem, 'self.free_capacity')
+               if isinstance(s, ast.AugAssign) and isinstance(s.op, ast.Add)]
+    ctx.ob('C02.1', rem, None,
+           len(raising) == len(_stores_attr(rem, 'self.free_capacity')) and
+           bool(raising),
+           '%s gives capacity back by adding the demand of the instance to '
+           'free_capacity' % rem.qualname,
+           construct='capacity given back additively')
     for func, meth in ((put, down.name), (rem, up.name)):
         graph = ctx.cfg(func)
         for node in graph.nodes:
-            if node.kind == 'stmt' and isinstance(node.ast, ast.AugAssign) \
-                    and N.txt(node.ast.target) == 'self.free_capacity':
+            if node.kind == 'stmt' and isinstance(
+                    node.ast, (ast.AugAssign, ast.Assign)) \
+                    and N.txt(node.ast.target if isinstance(
+                        node.ast, ast.AugAssign) else
+                        node.ast.targets[0]) == 'self.free_capacity':
                 _parent_call_after(ctx, func, graph, node, meth)
     # state changes
     setter = index.find_method(server, 'set_state')
@@ -259,15 +273,33 @@ def _aggregates(ctx):
 
     # trait sets / labels
     traitset = index.get_class(K.SCHED, 'TraitSet')
-    recalcs = [f for f in traitset.live_methods() if any(
-        isinstance(s, ast.AugAssign) and N.txt(s.target) == 'self.traits'
-        for s in K.walk_no_nested(f.node))]
+    # the routine that folds the children's traits into the aggregate: it
+    # stores self.traits and walks children_traits (found by role; the fold
+    # may run on the attribute or on a local that is stored afterwards)
+    recalcs = [f for f in traitset.live_methods()
+               if f.name != '__init__' and _stores_attr(f, 'self.traits')
+               and any(isinstance(n, ast.Attribute) and
+                       n.attr == 'children_traits'
+                       for n in K.walk_no_nested(f.node)) and
+               any(isinstance(n, (ast.For, ast.comprehension))
+                   for n in K.walk_no_nested(f.node))]
     recalc = K.one(recalcs, 'TraitSet routine combining child traits')
-    for sub in K.walk_no_nested(recalc.node):
-        if isinstance(sub, ast.AugAssign) and \
-                N.txt(sub.target) == 'self.traits':
-            ctx.ob('C02.1', recalc, sub, isinstance(sub.op, ast.BitOr),
-                   'child traits combined with bitwise OR')
+    accs = {'self.traits'}
+    for sub in _stores_attr(recalc, 'self.traits'):
+        if isinstance(sub, ast.Assign) and isinstance(sub.value, ast.Name):
+            accs.add(sub.value.id)
+    folds = [sub for sub in K.walk_no_nested(recalc.node)
+             if isinstance(sub, ast.AugAssign) and N.txt(sub.target) in accs]
+    folds += [sub.value for sub in K.walk_no_nested(recalc.node)
+              if isinstance(sub, ast.Assign) and
+              N.txt(sub.targets[0]) in accs and
+              isinstance(sub.value, ast.BinOp) and
+              N.txt(sub.value.left) in accs]
+    ctx.require(folds, 'the fold of the children traits in %s'
+                % recalc.qualname, rule='C02.1', func=recalc)
+    for sub in folds:
+        ctx.ob('C02.1', recalc, sub, isinstance(sub.op, ast.BitOr),
+               'child traits combined with bitwise OR')
     has = traitset.methods.get('has')
     ctx.require(has is not None, 'TraitSet.has')
     param = has.params()[1]
@@ -766,7 +798,41 @@ def _suggested(put):
     return out
 
 
+def _strategy_cursor(ctx):
+    """C02.5: the walk over the children of a bucket offers every child: in
+    each placement strategy the sequence the cursor indexes is the one whose
+    length bounds the number of attempts and wraps the cursor (the child list
+    keeps a hole for every removed child, so a node added later sits at a
+    position that a shorter bound never reaches)."""
+    mod = ctx.index.module(K.SCHED)
+    seen = 0
+    for cls in sorted(mod.classes.values(), key=lambda c: c.name):
+        if not cls.name.endswith('Strategy'):
+            continue
+        for func in cls.live_methods():
+            cursors = [sub for sub in K.walk_no_nested(func.node)
+                       if isinstance(sub, ast.Subscript) and
+                       isinstance(sub.ctx, ast.Load) and
+                       N.txt(sub.slice).startswith('self.') and
+                       'idx' in N.txt(sub.slice)]
+            if not cursors:
+                continue
+            seen += 1
+            seqs = set(N.txt(c.value) for c in cursors)
+            lens = set(N.txt(c.args[0]) for c in K.calls(func.node)
+                       if K.callee_text(c) == 'len' and len(c.args) == 1)
+            ctx.ob('C02.5', func, cursors[0],
+                   len(seqs) == 1 and lens == seqs,
+                   'the cursor of %s indexes %s and is bounded / wrapped by '
+                   'the length of the same sequence (lengths taken of: %s)'
+                   % (cls.name, sorted(seqs), sorted(lens)),
+                   construct='%s cursor bound' % cls.name)
+    ctx.require(seen >= 2, 'cursor walks of the placement strategies '
+                '(found %d)' % seen, rule='C02.5')
+
+
 def _walk(ctx):
+    _strategy_cursor(ctx)
     bucket = ctx.index.get_class(K.SCHED, 'Bucket')
     put = bucket.methods.get('put')
     ctx.require(put is not None, 'Bucket.put')
@@ -854,6 +920,22 @@ def _walk(ctx):
         else:
             ok = any(wrapped(f) for f in facts[src]) or any(
                 wrapped(a) for a in nz.facts_of_edge(edge))
+            if not ok and src.kind == 'test' and src.ast is not None:
+                # the test reads a named boolean: every value it can hold
+                # on this outcome is the wrap comparison
+                flag, want = src.ast, edge.kind == 'true'
+                while isinstance(flag, ast.UnaryOp) and isinstance(
+                        flag.op, ast.Not):
+                    flag, want = flag.operand, not want
+                if isinstance(flag, ast.Name):
+                    rdefs = K.reaching_defs(graph)
+                    vals = K.def_values(graph, rdefs, src, flag.id)
+                    live = [v for v in vals if not (
+                        isinstance(v, ast.Constant) and
+                        bool(v.value) != want)]
+                    ok = bool(live) and want and all(
+                        v is not None and not isinstance(v, ast.Constant)
+                        and wrapped(nz.atom(v)) for v in live)
             why = 'left without placing only when the strategy wrapped to ' \
                   'the first child'
         ctx.ob('C02.5', put, src, ok, why,
